@@ -282,6 +282,16 @@ async fn make_node(id: u64, ids: &[u64]) -> Node {
 
 type Queues = BTreeMap<(u64, u64), VecDeque<NamingRouteRequest>>;
 
+/// what happened to ONE node of a script (its local client operations, the messages delivered to
+/// it, the peers it was told are dead), in order: replayed on a full in-process node through the
+/// REAL `handle_naming_route`
+#[derive(Clone)]
+enum Ev {
+    Local(Value),
+    Deliver(u64, NamingRouteRequest),
+    Kill(u64),
+}
+
 /// let every mailbox drain (naming -> delay -> node manage -> senders), then collect what the
 /// senders were handed
 async fn settle(nodes: &BTreeMap<u64, Node>, queues: &mut Queues, pings: &mut u64) {
@@ -333,8 +343,10 @@ async fn dump(nodes: &BTreeMap<u64, Node>, queues: &Queues) -> Value {
     json!({"nodes": out, "queues": q})
 }
 
-async fn run_script(case: Value) -> Value {
+async fn run_script(case: Value) -> (Value, Vec<Ev>) {
     let started = std::time::Instant::now();
+    let watch = case["route_check"].as_u64();
+    let mut events: Vec<Ev> = vec![];
     let ids: Vec<u64> = case["nodes"].as_array().unwrap().iter().map(|x| x.as_u64().unwrap()).collect();
     capture_start();
     let mut nodes: BTreeMap<u64, Node> = BTreeMap::new();
@@ -348,6 +360,14 @@ async fn run_script(case: Value) -> Value {
     settle(&nodes, &mut queues, &mut pings).await;
     for op in case["ops"].as_array().unwrap() {
         let name = op[0].as_str().unwrap_or("");
+        if watch.is_some() && op[1].as_u64() == watch {
+            match name {
+                "reg" | "dereg" | "disc" => events.push(Ev::Local(op.clone())),
+                "kill" => events.push(Ev::Kill(op[2].as_u64().unwrap())),
+                "restart" => events.clear(),
+                _ => {}
+            }
+        }
         match name {
             "reg" => {
                 let n = &nodes[&op[1].as_u64().unwrap()];
@@ -384,6 +404,9 @@ async fn run_script(case: Value) -> Value {
                 let b = op[2].as_u64().unwrap();
                 let m = queues.get_mut(&(a, b)).and_then(|q| q.pop_front());
                 if let (Some(m), "deliver") = (m, name) {
+                    if watch == Some(b) {
+                        events.push(Ev::Deliver(a, m.clone()));
+                    }
                     if let Err(e) = deliver(&nodes[&b], a, m).await {
                         errors.push(format!("deliver {}->{}: {}", a, b, e));
                     }
@@ -408,7 +431,159 @@ async fn run_script(case: Value) -> Value {
     settle(&nodes, &mut queues, &mut pings).await;
     dumps.push(dump(&nodes, &queues).await);
     capture_stop();
-    json!({"r":"ok","dumps":dumps,"errors":errors,"pings":pings,"elapsed_ms": started.elapsed().as_millis() as u64})
+    (
+        json!({"r":"ok","dumps":dumps,"errors":errors,"pings":pings,"elapsed_ms": started.elapsed().as_millis() as u64}),
+        events,
+    )
+}
+
+/// the direct answers an arm of `handle_naming_route` makes the node send (timers of the full
+/// node also send pings, snapshot queries, distro digests and batches at their own pace: those are
+/// not answers to a delivery and are left out)
+fn answers(out: &mut Vec<Value>) {
+    for c in capture_take() {
+        match c.req {
+            NamingRouteRequest::Snapshot(_) | NamingRouteRequest::QueryDistroInstanceSnapshot(_) => {
+                out.push(json!([c.target, msg_json(&c.req)]));
+            }
+            _ => {}
+        }
+    }
+}
+
+fn dump_one(
+    b: u64,
+    d: rnacos::verif_hooks::sync::VerifNamingDump,
+    peers: Vec<(u64, bool, Vec<Arc<String>>)>,
+    errors: Vec<String>,
+    ans: Vec<Vec<Value>>,
+) -> Value {
+    let reg = sort_json(d.instances.iter().map(|i| inst_json(i)).collect());
+    let cset: Vec<Value> = d
+        .client_instance_set
+        .iter()
+        .filter(|(_, ks)| !ks.is_empty())
+        .map(|(c, ks)| json!([client_json(c), sort_json(ks.iter().map(ikey_json).collect())]))
+        .collect();
+    let peers: Vec<Value> = peers
+        .iter()
+        .map(|(id, valid, cs)| json!([id, valid, sort_json(cs.iter().map(|c| client_json(c)).collect())]))
+        .collect();
+    let ans: Vec<Value> = ans.into_iter().map(|a| Value::Array(sort_json(a))).collect();
+    json!({"id": b, "reg": reg, "cset": sort_json(cset), "peers": peers, "errors": errors, "answers": ans})
+}
+
+/// the events of node `b` replayed twice inside one FULL in-process node's actor system (every
+/// actor of a real server; raft group not initialised): once on a light node through `deliver`
+/// (the transcription), once on the full node through the REAL `handle_naming_route`.  Returns
+/// both registries, client indexes, peer tables and per-event answers.
+fn route_replay(b: u64, ids: &[u64], events: Vec<Ev>) -> Value {
+    use rnacos::common::constant::GRPC_HEAD_KEY_CLUSTER_ID;
+    use rnacos::naming::cluster::handle_naming_route;
+    let env = vec![
+        ("RNACOS_RAFT_NODE_ID".to_string(), b.to_string()),
+        ("RNACOS_RAFT_AUTO_INIT".to_string(), "false".to_string()),
+    ];
+    let node = super::node::Node::start(&env);
+    let app = node.app.clone();
+    let ids = ids.to_vec();
+    node.runner.block_on(async move {
+        capture_start();
+        // ---- pass 1: the light node and the transcription
+        let light = make_node(b, &ids).await;
+        let mut l_err = vec![];
+        let mut l_ans = vec![];
+        for ev in events.iter().cloned() {
+            match ev {
+                Ev::Local(op) => {
+                    let client = client_str(&op[2]);
+                    match op[0].as_str().unwrap_or("") {
+                        "reg" => {
+                            let inst = make_instance(op[3].as_u64().unwrap(), op[4].as_u64().unwrap(), client);
+                            light.naming.send(NamingCmd::Update(inst, None)).await.ok();
+                        }
+                        "dereg" => {
+                            let inst = make_instance(op[3].as_u64().unwrap(), 0, client);
+                            light.naming.send(NamingCmd::Delete(inst)).await.ok();
+                        }
+                        _ => {
+                            light.naming.send(NamingCmd::RemoveClient(client)).await.ok();
+                        }
+                    }
+                }
+                Ev::Deliver(from, req) => {
+                    if let Err(e) = deliver(&light, from, req).await {
+                        l_err.push(format!("deliver from {}: {}", from, e));
+                    }
+                }
+                Ev::Kill(x) => {
+                    light.inner.send(VerifNodeManageCmd::Starve(x)).await.ok();
+                }
+            }
+            for _ in 0..3 {
+                light.naming.send(VerifNamingCmd::Dump).await.ok();
+                light.inner.send(VerifNodeManageCmd::Dump).await.ok();
+                tokio::time::sleep(std::time::Duration::from_millis(1)).await;
+            }
+            let mut a = vec![];
+            answers(&mut a);
+            l_ans.push(a);
+        }
+        let d = light.naming.send(VerifNamingCmd::Dump).await.unwrap().unwrap();
+        let peers = light.inner.send(VerifNodeManageCmd::Dump).await.unwrap().unwrap();
+        let light_dump = dump_one(b, d, peers, l_err, l_ans);
+        capture_take();
+
+        // ---- pass 2: the full node and the real function
+        let nodes: Vec<(u64, Arc<String>)> = ids.iter().map(|i| (*i, Arc::new(format!("127.0.0.1:{}", 19800 + i)))).collect();
+        app.naming_inner_node_manage.send(NodeManageRequest::UpdateNodes(nodes)).await.ok();
+        let mut f_err = vec![];
+        let mut f_ans = vec![];
+        for ev in events {
+            match ev {
+                Ev::Local(op) => {
+                    let client = client_str(&op[2]);
+                    match op[0].as_str().unwrap_or("") {
+                        "reg" => {
+                            let inst = make_instance(op[3].as_u64().unwrap(), op[4].as_u64().unwrap(), client);
+                            app.naming_addr.send(NamingCmd::Update(inst, None)).await.ok();
+                        }
+                        "dereg" => {
+                            let inst = make_instance(op[3].as_u64().unwrap(), 0, client);
+                            app.naming_addr.send(NamingCmd::Delete(inst)).await.ok();
+                        }
+                        _ => {
+                            app.naming_addr.send(NamingCmd::RemoveClient(client)).await.ok();
+                        }
+                    }
+                }
+                Ev::Deliver(from, req) => {
+                    let mut ext = HashMap::new();
+                    ext.insert(GRPC_HEAD_KEY_CLUSTER_ID.to_string(), from.to_string());
+                    if let Err(e) = handle_naming_route(&app, req, ext).await {
+                        f_err.push(format!("handle_naming_route from {}: {}", from, e));
+                    }
+                }
+                Ev::Kill(x) => {
+                    app.naming_inner_node_manage.send(VerifNodeManageCmd::Starve(x)).await.ok();
+                }
+            }
+            for _ in 0..3 {
+                app.naming_addr.send(VerifNamingCmd::Dump).await.ok();
+                app.naming_inner_node_manage.send(VerifNodeManageCmd::Dump).await.ok();
+                tokio::time::sleep(std::time::Duration::from_millis(1)).await;
+            }
+            let mut a = vec![];
+            answers(&mut a);
+            f_ans.push(a);
+        }
+        let d = app.naming_addr.send(VerifNamingCmd::Dump).await.unwrap().unwrap();
+        let peers = app.naming_inner_node_manage.send(VerifNodeManageCmd::Dump).await.unwrap().unwrap();
+        let full_dump = dump_one(b, d, peers, f_err, f_ans);
+        capture_stop();
+        capture_take();
+        json!({"light": light_dump, "full": full_dump})
+    })
 }
 
 impl Suite for Sync {
@@ -418,7 +593,19 @@ impl Suite for Sync {
             let sys = actix::System::new();
             sys.block_on(run_script(c))
         })) {
-            Ok(v) => v,
+            Ok((mut v, events)) => {
+                if let Some(b) = case["route_check"].as_u64() {
+                    let ids: Vec<u64> = case["nodes"].as_array().unwrap().iter().map(|x| x.as_u64().unwrap()).collect();
+                    v["route"] = match catch_unwind(AssertUnwindSafe(|| route_replay(b, &ids, events))) {
+                        Ok(r) => r,
+                        Err(_) => {
+                            capture_stop();
+                            json!({"panic": true})
+                        }
+                    };
+                }
+                v
+            }
             Err(_) => {
                 capture_stop();
                 json!({"r":"panic"})
